@@ -8,7 +8,7 @@ from typing import Dict, List
 
 from ..framework import Check, SRC
 from ..defs_common import FAM, regen_or_report
-from ..defs_emit_common import (F, build_corpus, closure_case, closure_coq, closure_files, closure_model_ok, cz, read_py,
+from ..defs_emit_common import (F, build_corpus, closure_case, closure_coq, closure_files, closure_model_ok, coq_ap, cz, read_py,
                                 run_emit, EXC_CODE)
 
 THEOREMS = ["C16_combined", "C16_combined_closure", "C16_combined_exact", "C16_combined_refuted_alias_of_struct",
@@ -18,6 +18,9 @@ CORE_THEOREMS = ["C16_core_current", "C16_core_nonempty"]
 K_ALIAS_STRUCT = "combined:alias-of-struct"
 K_STRUCT_MSG = "combined:struct-uses-message"
 K_RESERVED = "combined:reserved-in-several-files"
+K_OPT_LEAK = "combined:imported-options-leak"
+K_OPT_LOST = "combined:root-options-lost"
+OPT_DEFAULTS = {"IMPORT_COREDEFS": True, "VALIDATE_ALIGNMENT": True, "AUTO_PAD": True}
 
 RT_HEADER = """From Coq Require Import ZArith List Bool String.
 From Defs Require Import Gen.TypeTables Model.Layout Model.Emit Proofs.EmitCombined.
@@ -129,9 +132,64 @@ def source_rt_classes(cl: dict) -> set:
     return cs
 
 
+def options_oracle(cl: dict, raw: dict) -> List[tuple]:
+    """The `compiler_options` section of the combined YAML, against the source closure.  The compiler honours the
+    options of the file it is given and of no other (pyrtma.compile.main reads the root file's section), and the combined
+    file inlines the core definitions.  So the combined file must carry IMPORT_COREDEFS: false, every option the ROOT file
+    sets away from its default (so that compiling it configures the parser the way the original compile was), and
+    nothing that only an IMPORTED file says.  -> [(key, description)]"""
+    out = []
+    root = cl["files"][0].get("options") or {}
+    others = {}
+    for f in cl["files"][1:]:
+        for k, v in (f.get("options") or {}).items():
+            others.setdefault(k, set()).add(v)
+    if raw.get("IMPORT_COREDEFS") is not False:
+        out.append(("combined:options", f"combined YAML does not switch the core import off: {raw}"))
+    for k, v in raw.items():
+        if k == "IMPORT_COREDEFS":
+            continue
+        want = root.get(k, OPT_DEFAULTS.get(k))
+        if v != want:
+            src = "an imported file" if v in others.get(k, ()) else "nowhere in the root file"
+            out.append((K_OPT_LEAK if v in others.get(k, ()) else "combined:options",
+                        f"combined YAML carries {k}: {v} ({src}); the original compile ran with {k} = {want} (root file / default)"))
+    for k, v in root.items():
+        if k != "IMPORT_COREDEFS" and v != OPT_DEFAULTS.get(k) and raw.get(k, OPT_DEFAULTS.get(k)) != v:
+            out.append((K_OPT_LOST, f"the root file sets {k}: {v}; the combined YAML has {k} = {raw.get(k, 'no entry (default ' + str(OPT_DEFAULTS.get(k)) + ')')}"))
+    return out
+
+
 def extra_closures() -> List[dict]:
     out = []
     S0 = ("struct", "S0", F(("q", "uint16", ("lit", 2)), ("r", "int32", None)))
+    # compiler_options sections.  PAD: definitions whose layout needs auto padding; ALIGNED: none needed
+    PAD = [("struct", "P1", F(("a", "int8", None), ("b", "double", None), ("c", "int16", None))),
+           ("msg", "PM", 710, F(("s", "P1", None), ("t", "int8", None), ("u", "int32", ("lit", 3))))]
+    LIBPAD = [("struct", "L1", F(("x", "int8", None), ("y", "int64", None))), ("msg", "LM", 720, F(("l", "L1", None), ("z", "uint8", None)))]
+    ALIGNED = [("struct", "Q1", F(("a", "int32", None), ("b", "int32", None))), ("msg", "QM", 711, F(("s", "Q1", None), ("d", "double", None)))]
+    for opt in ("VALIDATE_ALIGNMENT", "AUTO_PAD", "IMPORT_COREDEFS"):
+        for val in (False, True):
+            v = "on" if val else "off"
+            # an imported library file carries the option (the compiler ignores it), root on defaults
+            out.append(dict(tag=f"opts-imported:{opt}-{v}", cl=dict(files=[
+                dict(path="root.yaml", imports=[1], items=list(PAD)),
+                dict(path="lib/legacy.yaml", imports=[], items=list(LIBPAD), options={opt: val})],
+                auto_pad=True, import_coredefs=False), coq=True))
+            # the root file carries it
+            items = list(ALIGNED) if (opt, val) == ("AUTO_PAD", False) else list(PAD)
+            out.append(dict(tag=f"opts-root:{opt}-{v}", cl=dict(files=[
+                dict(path="root.yaml", imports=[1], items=items, options={opt: val}),
+                dict(path="lib/legacy.yaml", imports=[], items=[("struct", "L0", F(("x", "int32", None)))])],
+                auto_pad=True, import_coredefs=(opt == "IMPORT_COREDEFS")), coq=True))
+    # root and imported file disagree; two imported files disagree with each other
+    out.append(dict(tag="opts-root-vs-imported", cl=dict(files=[
+        dict(path="root.yaml", imports=[1, 2], items=list(PAD), options={"VALIDATE_ALIGNMENT": True, "AUTO_PAD": True}),
+        dict(path="lib/legacy.yaml", imports=[], items=list(LIBPAD), options={"VALIDATE_ALIGNMENT": False, "AUTO_PAD": False, "IMPORT_COREDEFS": True}),
+        dict(path="lib/other.yaml", imports=[], items=[("struct", "L0", F(("x", "int8", None), ("y", "int16", None)))], options={"AUTO_PAD": True, "VALIDATE_ALIGNMENT": True})],
+        auto_pad=True, import_coredefs=False), coq=True))
+    out.append(dict(tag="opts-root-autopad-off-misaligned", cl=dict(files=[
+        dict(path="root.yaml", imports=[], items=list(PAD), options={"AUTO_PAD": False})], auto_pad=True, import_coredefs=False), coq=True))
     out.append(dict(tag="two-reserved", cl=dict(files=[
         dict(path="root.yaml", imports=[1], items=[("msg", "M1", 5, F(("a", "int32", None))), ("reserved", [10, (12, 14)])]),
         dict(path="a.yaml", imports=[], items=[("reserved", [100, 101])])], auto_pad=True, import_coredefs=False), coq=True))
@@ -190,6 +248,7 @@ def run(chk: Check):
     dist: Dict[str, int] = {}
     ndet_ok = 0
     coq_cases, coq_idx = [], []
+    opt_stats: Dict[str, int] = {}
     rt_stats = dict(identical=0, reserved_placeholders_moved=0, differs=0, rejected=0, closures_with_several_reserved_blocks=0)
     nontrivial = set()
     for k, (c, res) in enumerate(zip(corpus, results)):
@@ -236,6 +295,7 @@ def run(chk: Check):
                 c2 = EXC_CODE.get(rt["exc"], 99)
                 rt_stats["rejected"] += 1
                 key = "hang:reparse-combined" if rt["exc"] == "HANG" else \
+                    K_OPT_LEAK if any(k == K_OPT_LEAK for k, _ in options_oracle(c["cl"], rt.get("raw_opts") or {})) else \
                     K_ALIAS_STRUCT if (K_ALIAS_STRUCT in cs and "alias" in rt["msg"]) else \
                     K_STRUCT_MSG if (K_STRUCT_MSG in cs and ("Unknown type" in rt["msg"] or "Unable to find definition" in rt["msg"])) else \
                     "combined:reparse-fails:" + str(rt["exc"])
@@ -253,12 +313,20 @@ def run(chk: Check):
                 else:
                     rt_stats["differs"] += 1
                     d = first_model_diff(ca, cb)
-                    key = K_RESERVED if (K_RESERVED in cs and d.startswith(("mts", "messages"))) else "combined:model-differs"
+                    ok = [k for k, _ in options_oracle(c["cl"], rt.get("raw_opts") or {})]
+                    key = K_RESERVED if (K_RESERVED in cs and d.startswith(("mts", "messages"))) else \
+                        K_OPT_LEAK if K_OPT_LEAK in ok else K_OPT_LOST if K_OPT_LOST in ok else "combined:model-differs"
                     chk.spec_failure(key, "re-parsing the combined YAML gives different ids/hashes/sizes/layouts: " + d, replay)
-                if rt["opts"] and rt["opts"].get("IMPORT_COREDEFS") is not False:
-                    chk.spec_failure("combined:options", f"combined YAML does not switch the core import off: {rt['opts']}", replay)
+            # the options the combined file carries (whether or not the re-parse was accepted)
+            leak = False
+            if rt.get("raw_opts") is not None:
+                for key, desc in options_oracle(c["cl"], rt["raw_opts"]):
+                    leak = leak or key == K_OPT_LEAK
+                    opt_stats[key] = opt_stats.get(key, 0) + 1
+                    chk.spec_failure(key, desc + (f"; recompiling the combined YAML: {rt['exc']}: {rt['msg'][:100]}" if not rt["ok"] else
+                                                 "; recompiling it gives " + ("the same" if equiv else "DIFFERENT") + " ids/hashes/sizes/layouts"), replay)
         if c["coq"] and closure_model_ok(c["cl"]):
-            coq_cases.append(f"({'true' if c['cl'].get('auto_pad', True) else 'false'}, {closure_coq(c['cl'])}, "
+            coq_cases.append(f"({coq_ap(c['cl'])}, {closure_coq(c['cl'])}, "
                              f"({cz(c1)}, {cz(c2)}, {'true' if same else 'false'}, {'true' if equiv else 'false'}))")
             coq_idx.append(k)
 
@@ -281,6 +349,9 @@ def run(chk: Check):
     chk.cov["input_distribution"] = dist
     chk.cov["determinism_closures"] = ndet_ok
     chk.cov["roundtrip"] = rt_stats
+    chk.cov["closures_with_compiler_options"] = dict(
+        root=sum(1 for c in corpus if c["cl"]["files"][0].get("options")),
+        imported=sum(1 for c in corpus if any(f.get("options") for f in c["cl"]["files"][1:])), oracle_hits=opt_stats)
     chk.cov["core_current"] = core_ok
     chk.cov["exhaustive"] = False
     chk.add_samples([dict(tag=c["tag"], files=closure_files(c["cl"])) for c in corpus[15:16] + corpus[70:72] + corpus[-3:-2]])
